@@ -82,64 +82,10 @@ def rule_tree_max(ctx, p, cfg, rid="T2"):
         r.require(le[1] == ml.path and recv[0] == "field" and any(x[0] == "call" and x[1] == anchors.LOAD for x in walk(recv)),
                   "public-max-is-tree-max-of-loaded-root", fn=lm, detail=show(le, 8))
 
-def run_cfg(ctx, p, cfg):
-    from rules import c01
-    c01.rule_inheritance_shape(ctx, p, cfg, "T5")   # an implied intermediate logger gates with its parent's threshold, a declared one with its own
-    c01.rule_longest_prefix_walk(ctx, p, cfg, "T6")   # "its effective logger" is the node the walk stops at: the first unknown component ends it
-    c01.rule_add_total(ctx, p, cfg, "T4")   # the predicate and the maximum range over every declared logger only if each is in the tree
-    with ctx.rule("T1", "same predicate", cfg) as r:
-        ro = anchors.routing(p)
-        le = p.fn(anchors.LOG_ENABLED)
-        ret = le.local_expr(0)
-        pred, find = ro["enabled_pred"], ro["find"]
-        a0, a1 = ret[2][0], ret[2][1] if len(ret[2]) > 1 else None
-        fcall = [c for c in calls_in(a0) if c[1] == find.path]
-        r.require(bool(fcall), "enabled-uses-find", fn=le, detail="Log::enabled applies the predicate to the node found by %s" % find.path)
-        if fcall:
-            tgt = fcall[0][2][1] if len(fcall[0][2]) > 1 else None
-            r.require(tgt is not None and deep_strip(tgt) == ("call", "log::Metadata::<'a>::target", (("param", 2),), deep_strip(tgt)[3] if len(deep_strip(tgt)) > 3 else None),
-                      "enabled-target-from-metadata", fn=le, detail="lookup key is metadata.target(): %s" % show(tgt))
-            root = deep_strip(fcall[0][2][0])
-            r.require(any(x[0] == "call" and x[1] == anchors.LOAD for x in walk(root)) and root[0] == "field",
-                      "enabled-root-from-snapshot", fn=le, detail="lookup starts at the loaded snapshot's root: %s" % show(root, 8))
-        r.require(a1 is not None and any(x[0] == "call" and x[1] == "log::Metadata::<'a>::level" and deep_strip(x[2][0]) == ("param", 2) for x in walk(a1)),
-                  "enabled-level-from-metadata", fn=le, detail="level argument is metadata.level(): %s" % show(a1))
-        # delivery side
-        ll = ro["log_log"]
-        site = ro["node_log_site"]
-        recv = site.arg(0)
-        f2 = [c for c in calls_in(recv) if c[1] == find.path]
-        r.require(bool(f2), "delivery-uses-find", fn=ll, site=site.at, detail="Log::log delivers through the node found by %s" % find.path)
-        if f2:
-            tgt = f2[0][2][1]
-            r.require(any(x[0] == "call" and x[1] == "log::Record::<'a>::target" and deep_strip(x[2][0]) == ("param", 2) for x in walk(tgt)),
-                      "delivery-target-from-record", fn=ll, site=site.at, detail="lookup key is record.target(): %s" % show(tgt))
-        nl = ro["node_log"]
-        ds = ro["deliver_site"]
-        conds = nl.conditions(ds.block)
-        gate = None
-        for (sb, si, allowed) in conds:
-            d = strip(si.discr)
-            if d[0] == "call" and d[1] == pred.path:
-                gate = (sb, si, allowed, d)
-        r.require(gate is not None, "delivery-gated-by-predicate", fn=nl, site=ds.at,
-                  detail="the appender loop is control-dependent on %s" % pred.path)
-        if gate:
-            sb, si, allowed, d = gate
-            labels = {si.label(v) for v, _ in allowed}
-            r.require(labels == {True}, "gate-polarity", fn=nl, detail="delivery only on the predicate's true edge (allowed edges %s)" % labels)
-            r.require(deep_strip(d[2][0]) == ("param", 1), "gate-on-self", fn=nl, detail="predicate evaluated on the node itself: %s" % show(d[2][0]))
-            r.require(any(x[0] == "call" and x[1] == "log::Record::<'a>::level" and deep_strip(x[2][0]) == ("param", 2) for x in walk(d[2][1])),
-                      "gate-level-from-record", fn=nl, detail="predicate level is record.level(): %s" % show(d[2][1]))
-        # the predicate itself: threshold >= level
-        pe = pred.local_expr(0)
-        nf = cmp_nf(pe)
-        ok = nf is not None and nf[0] == "Le" and deep_strip(nf[1]) == ("param", 2) and deep_strip(nf[2])[0] == "field" and deep_strip(nf[2])[1] == ("param", 1)
-        r.require(ok, "predicate-is-threshold-ge-level", fn=pred, detail="normal form: %s" % (show(("cmp",) + nf) if nf else show(pe)))
 
-    rule_tree_max(ctx, p, cfg, "T2")
-
-    with ctx.rule("T3", "install => publish", cfg) as r:
+def rule_install_publishes(ctx, p, cfg, rid="T3"):
+    """whoever installs a logger or swaps the snapshot first publishes the maximum of that very logger"""
+    with ctx.rule(rid, "install => publish", cfg) as r:
         ro = anchors.routing(p)
         ml = ro["max_level"]
         max_fns = {ml.path, "Logger::max_log_level"}
@@ -189,3 +135,64 @@ def run_cfg(ctx, p, cfg):
             v = c.arg(1)
             r.require(any(x[0] == "call" and x[1] == "SharedLogger::new" or (x[0] == "call" and x[1] in p.fns and x[1] != ml.path and "config::runtime::Config" in " ".join(p.fns[x[1]].locals[1:2])) for x in walk(v)),
                       "store-of-new-snapshot:%s" % c.fn.path, fn=c.fn, site=c.at, detail="stored value %s" % show(v, 5))
+
+def run_cfg(ctx, p, cfg):
+    from rules import c01
+    c01.rule_inheritance_shape(ctx, p, cfg, "T5")   # an implied intermediate logger gates with its parent's threshold, a declared one with its own
+    c01.rule_longest_prefix_walk(ctx, p, cfg, "T6")   # "its effective logger" is the node the walk stops at: the first unknown component ends it
+    c01.rule_add_total(ctx, p, cfg, "T4")   # the predicate and the maximum range over every declared logger only if each is in the tree
+    with ctx.rule("T1", "same predicate", cfg) as r:
+        ro = anchors.routing(p)
+        le = p.fn(anchors.LOG_ENABLED)
+        ret = le.local_expr(0)
+        pred, find = ro["enabled_pred"], ro["find"]
+        a0, a1 = ret[2][0], ret[2][1] if len(ret[2]) > 1 else None
+        fcall = [c for c in calls_in(a0) if c[1] == find.path]
+        r.require(bool(fcall), "enabled-uses-find", fn=le, detail="Log::enabled applies the predicate to the node found by %s" % find.path)
+        if fcall:
+            tgt = fcall[0][2][1] if len(fcall[0][2]) > 1 else None
+            r.require(tgt is not None and deep_strip(tgt) == ("call", "log::Metadata::<'a>::target", (("param", 2),), deep_strip(tgt)[3] if len(deep_strip(tgt)) > 3 else None),
+                      "enabled-target-from-metadata", fn=le, detail="lookup key is metadata.target(): %s" % show(tgt))
+            root = deep_strip(fcall[0][2][0])
+            r.require(any(x[0] == "call" and x[1] == anchors.LOAD for x in walk(root)) and root[0] == "field",
+                      "enabled-root-from-snapshot", fn=le, detail="lookup starts at the loaded snapshot's root: %s" % show(root, 8))
+        r.require(a1 is not None and any(x[0] == "call" and x[1] == "log::Metadata::<'a>::level" and deep_strip(x[2][0]) == ("param", 2) for x in walk(a1)),
+                  "enabled-level-from-metadata", fn=le, detail="level argument is metadata.level(): %s" % show(a1))
+        # delivery side
+        ll = ro["log_log"]
+        site = ro["node_log_site"]
+        recv = site.arg(0)
+        f2 = [c for c in calls_in(recv) if c[1] == find.path]
+        r.require(bool(f2), "delivery-uses-find", fn=ll, site=site.at, detail="Log::log delivers through the node found by %s" % find.path)
+        if f2:
+            tgt = f2[0][2][1]
+            dt = deep_strip(tgt)
+            r.require(dt[0] == "call" and dt[1] == "log::Record::<'a>::target" and deep_strip(dt[2][0]) == ("param", 2),
+                      "delivery-target-from-record", fn=ll, site=site.at, detail="lookup key is record.target(): %s" % show(tgt),
+                      fail_detail="delivery looks the logger up under %s, enabled() under metadata.target(): the two can name different loggers" % show(tgt, 5))
+        nl = ro["node_log"]
+        ds = ro["deliver_site"]
+        conds = nl.conditions(ds.block)
+        gate = None
+        for (sb, si, allowed) in conds:
+            d = strip(si.discr)
+            if d[0] == "call" and d[1] == pred.path:
+                gate = (sb, si, allowed, d)
+        r.require(gate is not None, "delivery-gated-by-predicate", fn=nl, site=ds.at,
+                  detail="the appender loop is control-dependent on %s" % pred.path)
+        if gate:
+            sb, si, allowed, d = gate
+            labels = {si.label(v) for v, _ in allowed}
+            r.require(labels == {True}, "gate-polarity", fn=nl, detail="delivery only on the predicate's true edge (allowed edges %s)" % labels)
+            r.require(deep_strip(d[2][0]) == ("param", 1), "gate-on-self", fn=nl, detail="predicate evaluated on the node itself: %s" % show(d[2][0]))
+            r.require(any(x[0] == "call" and x[1] == "log::Record::<'a>::level" and deep_strip(x[2][0]) == ("param", 2) for x in walk(d[2][1])),
+                      "gate-level-from-record", fn=nl, detail="predicate level is record.level(): %s" % show(d[2][1]))
+        # the predicate itself: threshold >= level
+        pe = pred.local_expr(0)
+        nf = cmp_nf(pe)
+        ok = nf is not None and nf[0] == "Le" and deep_strip(nf[1]) == ("param", 2) and deep_strip(nf[2])[0] == "field" and deep_strip(nf[2])[1] == ("param", 1)
+        r.require(ok, "predicate-is-threshold-ge-level", fn=pred, detail="normal form: %s" % (show(("cmp",) + nf) if nf else show(pe)))
+
+    rule_tree_max(ctx, p, cfg, "T2")
+
+    rule_install_publishes(ctx, p, cfg, "T3")
